@@ -2,7 +2,7 @@
 //! C09 and C10 oracles.
 use std::collections::BTreeMap;
 
-use cosmwasm_std::{coin, Addr, Coin};
+use cosmwasm_std::{coin, Addr, Coin, Decimal};
 use mantra_dex_std::farm_manager as fm;
 use num_bigint::BigUint;
 use num_traits::Zero;
@@ -219,8 +219,12 @@ impl FarmSim {
         let p = mine[pick_idx(pos, mine.len())].clone();
         if by % 3 == 2 {
             // through the pool manager: a locked deposit naming the position
+            // (by/3)%4: 0 the owner, two assets; 1 the owner, one asset; 2 somebody else, two assets;
+            // 3 somebody else, one asset (the pool manager then calls itself before it locks)
             let k = self.lps.iter().position(|l| *l == p.lp).unwrap_or(0);
-            return self.lock_via_pm(&owner, k, (amount.min(1_000_000_000)).max(1000) as u64, p.dur, Some(p.id.clone()), true, st);
+            let v = (by / 3) % 4;
+            let sender = if v >= 2 { self.w.users.iter().find(|u| **u != owner).cloned().unwrap() } else { owner.clone() };
+            return self.lock_via_pm(&sender, k, (amount.min(1_000_000_000)).max(1000) as u64, p.dur, Some(p.id.clone()), v % 2 == 1, st);
         }
         let sender = if by % 3 == 0 { owner.clone() } else { self.w.users.iter().find(|u| **u != owner).cloned().unwrap() };
         if self.w.balance(&sender, &p.lp) < amount || amount == 0 {
@@ -251,21 +255,20 @@ impl FarmSim {
         self.lock_via_pm(&sender, k, amount, dur, id.map(|i| format!("x{i}")), false, st)
     }
 
-    /// `full_id`: when true `id` is the full identifier of an existing position
+    /// `single`: deposit one asset only (the pool manager swaps half and then calls itself)
     #[allow(clippy::too_many_arguments)]
-    fn lock_via_pm(&mut self, sender: &Addr, k: usize, amount: u64, dur: u64, id: Option<String>, full_id: bool, st: &mut Stats) -> Result<(), String> {
+    fn lock_via_pm(&mut self, sender: &Addr, k: usize, amount: u64, dur: u64, id: Option<String>, single: bool, st: &mut Stats) -> Result<(), String> {
         let lp = self.lps[k].clone();
         let pool = self.pool_ids[k].clone();
         let info = self.w.pool(&pool).unwrap();
-        let funds: Vec<Coin> = info.pool_info.assets.iter().map(|c| coin(amount as u128, &c.denom)).collect();
-        let what = format!("step {}: {} deposits {amount}+{amount} into {pool} locked for {dur}s id {:?}", self.steps, self.label(sender.as_str()), id);
+        let funds: Vec<Coin> = info.pool_info.assets.iter().take(if single { 1 } else { usize::MAX }).map(|c| coin(amount as u128, &c.denom)).collect();
+        let what = format!("step {}: {} deposits {amount}{} into {pool} locked for {dur}s id {:?}", self.steps, self.label(sender.as_str()), if single { " of one asset".to_string() } else { format!("+{amount}") }, id);
         // what the documented rules say: a named position is expanded if it exists (then it must be
         // the sender's own and open), otherwise created as u-<id>
         let existing = id.as_ref().and_then(|i| {
             // the pool manager looks the raw identifier up as given
             self.l.positions.get(i).cloned()
         });
-        let _ = full_id;
         let valid = match &existing {
             Some(p) => p.owner == sender.as_str() && p.open && p.lp == lp,
             None => {
@@ -276,11 +279,19 @@ impl FarmSim {
         };
         let wpre = self.weights_pre(sender.as_str(), &lp);
         let pre = Snapshot::take(&self.w);
-        let r = self.w.provide(sender, &pool, &funds, None, None, None, Some(dur), id.clone());
+        let r = self.w.provide(sender, &pool, &funds, None, if single { Some(Decimal::percent(50)) } else { None }, None, Some(dur), id.clone());
         let post = Snapshot::take(&self.w);
         let ok = r.is_ok();
         st.bump(if ok { "locked deposit: ok" } else { "locked deposit: rejected" });
-        if self.mon.c08 && ok != valid {
+        if single {
+            st.bump(if ok { "locked deposit of one asset: ok" } else { "locked deposit of one asset: rejected" });
+        }
+        if existing.as_ref().map(|p| p.owner != sender.as_str()).unwrap_or(false) {
+            st.bump("locked deposit naming somebody else's position");
+        }
+        // a one-asset deposit may also be refused by the pool for its own reasons (price impact of
+        // the internal swap): only an acceptance the rules forbid is judged there
+        if self.mon.c08 && ok != valid && !(single && valid) {
             return Err(format!("[C08] {what}: accepted={ok}, the documented rules say {valid} ({:?})", r.err().map(|e| e.chars().take(120).collect::<String>())));
         }
         if ok {
